@@ -84,3 +84,30 @@ def diagram_hostile_names(v):
     spec = (v.get("case") or {}).get("spec") or {}
     names = [c["name"] for c in spec.get("comps", [])]
     return any(hostile_name(n) for n in names)
+
+
+def _depth_to_live(cm, n):
+    """Number of sweeps after which component n first shows a voltage (sources and regulators start at vo)."""
+    c = cm[n]
+    if c["kind"] in ("Source", "Converter", "LinReg") or not c["parents"]:
+        return 0
+    return 1 + _depth_to_live(cm, c["parents"][0])
+
+
+@mechanism("mux.transient_input_selection")
+def mux_transient_input_selection(v):
+    """F19: the Jacobi start brings a lower-priority mux input up before a higher-priority one; for one sweep the
+    mux runs from the wrong input and the current computed there overloads a series element -> 'Unstable system'
+    although a modest steady state exists.  Matches only benign.solved + 'Unstable system' + such a mux."""
+    if v["clause"] != "benign.solved":
+        return False
+    if "Unstable system" not in str(v["detail"].get("outcome", "")):
+        return False
+    spec = (v.get("case") or {}).get("spec") or {}
+    cm = {c["name"]: c for c in spec.get("comps", [])}
+    for c in spec.get("comps", []):
+        if c["kind"] == "PMux" and len(c["parents"]) > 1:
+            d = [_depth_to_live(cm, p) for p in c["parents"]]
+            if any(d[i] > d[j] for i in range(len(d)) for j in range(i + 1, len(d))):
+                return True
+    return False
